@@ -96,6 +96,8 @@ def label(act):
             dev += "+ck@%d" % c["ck"]
         if c.get("cx", 0):
             dev += "+cancelled"
+        if c.get("rsrc", "none") != "none":
+            dev += "+read%s@%d(%s)" % (c["rsrc"], c.get("rk", -1), c.get("rkind"))
         return "Begin(s=%d,n=%d,bs=%d,B=%d,F=%d,%s)" % (c.get("s", -1), c.get("n", -1), c.get("bs", -1),
                                                        c.get("hB", -1), c.get("hF", -1), dev)
     s = op
